@@ -22,6 +22,15 @@ CLAIMED["C07"] = ("predicated path enumeration (E4) with boolean atoms for the A
          "go/ssa model; RPCACL.Check assumed truthful and side-effect free; a third Send site or a Send of an unchecked response is reported; direct callers of exported Target.GnmiUpdate outside the module not covered",
          "DESIGN.md §3 C07")
 
+CLAIMED["C11"] = ("lockset analysis (E3) + predicated path enumeration with select-arm forking (E4) + boundary evaluation of Len()==0",
+         "Static, all-paths for coalesce.Queue: guarded-by of queue/coalesced, closed-check before insert, non-blocking wake-up token after a successful insert into a channel of capacity>=1, complete blocking wait set in Next with ctx.Err on cancellation, closed reported only when empty (evaluated at Len 0 and 1), representation-level order/count rules for insert/next (increment by 1, append at tail with 0, dequeue head, count before delete, advance by one, key forgotten on every path). Necessary conditions of order/dup-count/no-loss; conservation over all interleavings is not decided.",
+         "go/ssa model; sync.Mutex and channel semantics per the Go memory model; representation rules are tied to the slice+map representation (a different representation fails with UNRESOLVED-ANCHOR rather than passing)",
+         "DESIGN.md §3 C11")
+CLAIMED["C16"] = ("lockset analysis with foreign locks (E3) + predicated path enumeration (E4) + who-may-call (E5b) + boundary evaluation of the reference-count test",
+         "Static, all-paths for connection.Manager: conns/ref only under Manager.mu, dial results published before ready and read after it, join-or-create in one critical section with exactly one go dial, every counted reference waits for ready or is undone, failure path removes+publishes under the lock, once-guarded release with decrement by 1 and remove iff ref test true at 0/false at 1, ClientConn.Close only in remove, remove only from dial/release body and always forgets the entry, manager.monitor defers the release before subscribe. Necessary conditions of correct reference counting for every interleaving; holders outside the module are not covered.",
+         "go/ssa model; sync.Once/Mutex/channel-close semantics assumed; grpc.ClientConn not analysed",
+         "DESIGN.md §3 C16")
+
 NA_REASON = {}
 DEFAULT_NA = "check not built yet in this round (static rules designed in DESIGN.md section 3); not claimed until the rule runs"
 
